@@ -4,6 +4,9 @@ import (
 	"fmt"
 	"go/ast"
 	"go/token"
+	"os"
+	"os/exec"
+	"path/filepath"
 	"strings"
 )
 
@@ -63,6 +66,107 @@ func moreFacts(b *strings.Builder, root *pkgFiles, repo string) {
 			b.WriteString(", ")
 		}
 		fmt.Fprintf(b, "%d", v)
+	}
+	b.WriteString("]\n\n")
+	signingFacts(b, root, repo)
+}
+
+// dsigConstants resolves the string constants of the goxmldsig module the repository builds against.
+func dsigConstants(repo string) map[string]string {
+	out := map[string]string{}
+	cmd := exec.Command("go", "list", "-m", "-f", "{{.Dir}}", "github.com/russellhaering/goxmldsig")
+	cmd.Dir = repo
+	cmd.Env = append(os.Environ(), "GOFLAGS=-mod=mod", "GOPROXY=off", "GOSUMDB=off")
+	b, err := cmd.Output()
+	if err != nil {
+		fail("cannot locate goxmldsig: %v", err)
+		return out
+	}
+	dir := strings.TrimSpace(string(b))
+	p := parseDir(dir)
+	for _, fn := range sortedFileNames(p) {
+		for _, d := range p.files[fn].Decls {
+			g, ok := d.(*ast.GenDecl)
+			if !ok || g.Tok != token.CONST {
+				continue
+			}
+			for _, sp := range g.Specs {
+				vs := sp.(*ast.ValueSpec)
+				for i, nm := range vs.Names {
+					if i < len(vs.Values) {
+						if bl, ok := vs.Values[i].(*ast.BasicLit); ok && bl.Kind == token.STRING {
+							out["dsig."+nm.Name] = exprStr(bl)
+						}
+					}
+				}
+			}
+		}
+	}
+	_ = filepath.Join
+	return out
+}
+
+// signingFacts extracts the method -> key type switch of GetSigningContext.
+func signingFacts(b *strings.Builder, root *pkgFiles, repo string) {
+	consts := dsigConstants(repo)
+	type row struct{ uri, keyType string }
+	var rows []row
+	found := false
+	for _, fn := range sortedFileNames(root) {
+		for _, d := range root.files[fn].Decls {
+			fd, ok := d.(*ast.FuncDecl)
+			if !ok || fd.Name.Name != "GetSigningContext" || fd.Body == nil {
+				continue
+			}
+			ast.Inspect(fd.Body, func(n ast.Node) bool {
+				sw, ok := n.(*ast.SwitchStmt)
+				if !ok || exprStr(sw.Tag) != "sp.SignatureMethod" {
+					return true
+				}
+				found = true
+				for _, st := range sw.Body.List {
+					cc := st.(*ast.CaseClause)
+					if cc.List == nil {
+						continue // default: refuses
+					}
+					keyType := ""
+					for _, bs := range cc.Body {
+						ast.Inspect(bs, func(m ast.Node) bool {
+							if ta, ok := m.(*ast.TypeAssertExpr); ok && exprStr(ta.X) == "sp.Key" {
+								keyType = exprStr(ta.Type)
+								if se, ok := ta.Type.(*ast.StarExpr); ok {
+									keyType = "*" + exprStr(se.X)
+								}
+							}
+							return true
+						})
+					}
+					if keyType == "" {
+						fail("GetSigningContext: a case without a key type assertion")
+					}
+					for _, e := range cc.List {
+						name := exprStr(e)
+						uri, ok := consts[name]
+						if !ok {
+							fail("GetSigningContext: cannot resolve %s", name)
+							uri = name
+						}
+						rows = append(rows, row{uri, keyType})
+					}
+				}
+				return false
+			})
+		}
+	}
+	if !found {
+		fail("GetSigningContext: switch on sp.SignatureMethod not found")
+	}
+	b.WriteString("/-- `GetSigningContext`: signature method URI ↦ Go type the key must have -/\ndef signingMethods : List (String × String) := [")
+	for i, r := range rows {
+		if i > 0 {
+			b.WriteString(", ")
+		}
+		fmt.Fprintf(b, "(%s, %s)", leanStr(r.uri), leanStr(r.keyType))
 	}
 	b.WriteString("]\n\n")
 }
